@@ -3,6 +3,7 @@ CONSTANTS
   MaxOps = 4
   Deviations <- NoDev
   JunkBytes <- MCJunk
+  RegistryOps = FALSE
 CHECK_DEADLOCK FALSE
 
 INVARIANT Export
